@@ -417,6 +417,34 @@ func scenario(rec *mon.Recorder, c int) bool {
 	// burst: node 3 joins / is removed / re-joins while datasets are created and deleted
 	var wg sync.WaitGroup
 	var hung int32
+	// ... and while clients list the datasets with their sizes, without a deadline (as the command-line client does):
+	// a node asked for sizes asks the other nodes for the partitions it does not hold, both ways at once
+	var listersStop int32
+	var listers sync.WaitGroup
+	var sizeListings int64
+	if c%2 == 1 {
+		// a dataset of many single-replica partitions spread over both nodes: each node lacks about half of them, and
+		// every membership change makes the allocators propose a change for every one of them
+		if !create(cl.Nodes[0], 32, 1) {
+			return !stalled("create of a dataset of many single-replica partitions")
+		}
+		note("create a dataset of 32 single-replica partitions")
+		for _, n := range cl.Nodes[:2] {
+			for k := 0; k < 3; k++ {
+				listers.Add(1)
+				go func(n *sim.Node) {
+					defer listers.Done()
+					for atomic.LoadInt32(&listersStop) == 0 {
+						if dm := n.DM(); dm != nil {
+							dm.List(context.Background(), true)
+							atomic.AddInt64(&sizeListings, 1)
+						}
+						time.Sleep(time.Millisecond)
+					}
+				}(n)
+			}
+		}
+	}
 	wg.Add(2)
 	go func() {
 		defer wg.Done()
@@ -478,6 +506,11 @@ func scenario(rec *mon.Recorder, c int) bool {
 		}
 	}()
 	wg.Wait()
+	atomic.StoreInt32(&listersStop, 1)
+	if !cl.Guard(20*time.Second, func() { listers.Wait() }) {
+		return !stalled("a listing of the datasets with their sizes during the burst")
+	}
+	rec.Count("size_listings_during_bursts", atomic.LoadInt64(&sizeListings))
 	if atomic.LoadInt32(&hung) == 1 {
 		return !stalled("a membership or catalogue call during the burst")
 	}
